@@ -168,17 +168,40 @@ class MatchesSetwise:
         self.matchers = matchers
 
     def match(self, observed):
-        remaining_matchers = set(self.matchers)
+        # Find a maximum one-to-one assignment of values to matchers
+        # (augmenting paths), so that the verdict does not depend on the
+        # order in which matchers happen to be tried.
+        matchers = list(self.matchers)
+        values = list(observed)
+        verdicts = {}
+
+        def matches(value_index, matcher_index):
+            key = (value_index, matcher_index)
+            if key not in verdicts:
+                mismatch = matchers[matcher_index].match(values[value_index])
+                verdicts[key] = mismatch is None
+            return verdicts[key]
+
+        owner = {}
+
+        def assign(value_index, tried):
+            for matcher_index in range(len(matchers)):
+                if matcher_index in tried or not matches(value_index, matcher_index):
+                    continue
+                tried.add(matcher_index)
+                if matcher_index not in owner or assign(owner[matcher_index], tried):
+                    owner[matcher_index] = value_index
+                    return True
+            return False
+
         not_matched = []
-        for value in observed:
-            for matcher in remaining_matchers:
-                if matcher.match(value) is None:
-                    remaining_matchers.remove(matcher)
-                    break
-            else:
-                not_matched.append(value)
+        for value_index in range(len(values)):
+            if not assign(value_index, set()):
+                not_matched.append(values[value_index])
+        remaining_matchers = [
+            matcher for index, matcher in enumerate(matchers) if index not in owner
+        ]
         if not_matched or remaining_matchers:
-            remaining_matchers = list(remaining_matchers)
             # There are various cases that all should be reported somewhat
             # differently.
 
